@@ -226,6 +226,12 @@ func (f *frame) mergeReturns(st *State, base int, rets []retPath, callee *ssa.Fu
 	*st = *rets[0].st.clone()
 	st.facts = append([]T(nil), orig.facts[:base]...)
 	st.assume(tOr(conds...))
+	// the merged path depends on what was asserted on every merged branch
+	for _, r := range rets[1:] {
+		for n := r.st.priors; n != nil && n != orig.priors; n = n.prev {
+			st.priors = &priorNode{n.ob, st.priors}
+		}
+	}
 	// results
 	nres := len(rets[0].vals)
 	out := make([]Val, nres)
